@@ -436,7 +436,8 @@ def cmd_check(args):
         if truncated:
             print("HARNESS-ERROR: wall-clock cap hit; evidence marked truncated")
         sys.stdout.flush()
-        return 2
+        # violations that replayed exactly in a fresh interpreter stand on their own
+        return 1 if reported else 2
     if total["n"] < runs:
         print("HARNESS-ERROR: only %d of %d runs produced a result" % (total["n"], runs))
         return 2
